@@ -116,6 +116,22 @@ def gen_verdict_decls(rng, tier):
     b.add("String", [block("sanitize", [[tid("trim")], [tid("trim")]])], "validate:duplicate_sanitizer")
     b.add("String", [block("validate", [[tid("not_empty")], [tid("not_empty")]])], "validate:duplicate_validator")
     b.add("f64", [block("validate", [[tid("finite")], [tid("finite")]])], "validate:duplicate_validator")
+    # duplicates that are not neighbours
+    S = lambda *names: block("sanitize", [[tid(n_)] if isinstance(n_, str) else n_ for n_ in names])
+    V = lambda *items: block("validate", [[tid(n_)] if isinstance(n_, str) else n_ for n_ in items])
+    WS0, WS1 = [tid("with"), EQ, tfn(0, "p", "s")], [tid("with"), EQ, tfn(1, "p", "s")]
+    b.add("String", [S("trim", "lowercase", "trim"), D(["Debug"])], "validate:duplicate_sanitizer")
+    b.add("String", [S("lowercase", "trim", "lowercase"), D(["Debug"])], "validate:duplicate_sanitizer")
+    b.add("String", [S("uppercase", "trim", WS0, "uppercase"), D(["Debug"])], "validate:duplicate_sanitizer")
+    b.add("String", [S(WS0, "trim", WS1), D(["Debug"])], "validate:duplicate_sanitizer")
+    b.add("String", [V("not_empty", [tid("len_char_max"), EQ, li(5)], "not_empty"), D(["Debug"])], "validate:duplicate_validator")
+    b.add("String", [V([tid("len_char_max"), EQ, li(5)], "not_empty", [tid("len_char_max"), EQ, li(6)]), D(["Debug"])], "validate:duplicate_validator")
+    b.add("i32", [V([tid("greater"), EQ, li(1)], [tid("less"), EQ, li(9)], [tid("greater"), EQ, li(2)]), D(["Debug"])], "validate:duplicate_validator")
+    b.add("i32", [V([tid("predicate"), EQ, tfn(0, "p", "p")], [tid("less"), EQ, li(9)], [tid("predicate"), EQ, tfn(1, "p", "p")]), D(["Debug"])], "validate:duplicate_validator")
+    b.add("f64", [V("finite", [tid("greater"), EQ, lf("1.0")], "finite"), D(["Debug"])], "validate:duplicate_validator")
+    b.add("f64", [V([tid("less"), EQ, lf("9.0")], "finite", [tid("greater"), EQ, lf("1.0")], [tid("less"), EQ, lf("8.0")]), D(["Debug"])], "validate:duplicate_validator")
+    b.add("Vec<i32>", [V([tid("predicate"), EQ, tfn(0, "p", "p")], [tid("predicate"), EQ, tfn(1, "p", "p")]), D(["Debug"])], "validate:duplicate_validator")
+    b.add("i32", [D(["Debug", "Clone", "Debug"])], "traits:duplicate")
     b.add("f64", [block("validate", [[tid("finite"), EQ, lf("1.0")]])], "parse:bad_validator")
 
     # ---- literal bounds in every relative position
